@@ -479,7 +479,7 @@ func alSub64(arr64 []uint64, arr, s []byte) []uint64 {
 
 func alRewind(proof, vc, gen []byte, nonce [32]byte) ([]byte, error) {
 	// UnblindOutputWithNonce needs an output; the message is asset || asset blinder
-	out := &transaction.TxOutput{Asset: gen, Value: vc, Script: []byte{0x51}, Nonce: []byte{0}, RangeProof: proof}
+	out := &transaction.TxOutput{Asset: gen, Value: vc, Script: []byte{0x51}, Nonce: append([]byte{2}, alOne32...), RangeProof: proof}
 	u, err := confidential.UnblindOutputWithNonce(out, nonce[:])
 	if err != nil {
 		return nil, err
